@@ -69,6 +69,8 @@ pub enum RPanic {
     Diverge,
     /// lattice programs: the statement allows a panic or a value (mixed cycles); must terminate
     Either,
+    /// lattice programs: a cycle panic, or else exactly this value (the least fixpoint)
+    EitherValue(u32),
 }
 
 #[derive(Clone, Debug, Default)]
